@@ -48,6 +48,9 @@ type StructCase struct {
 	// fresh LRU of that capacity, so that a nested value holds more struct types than fit and the
 	// type of an object still being walked is evicted in mid-call
 	Cache int `json:"cache,omitempty"`
+	// Warm: the type of the source is validated once (result ignored) before anything else of the
+	// call happens - in particular before the late registration
+	Warm bool `json:"warm,omitempty"`
 	// Many: type and value are those of a many-types case (see ManySpec); Root and Val are empty then
 	Many *ManySpec `json:"many,omitempty"`
 }
@@ -190,6 +193,9 @@ func (c *StructCase) call(src interface{}) error {
 		for _, n := range names {
 			vs.SetRule(toRM(c.PerType[n]), c.typeToken(lib.Types[n], false))
 		}
+	}
+	if c.Warm {
+		_ = valid.ValidateStruct(src, c.tagName())
 	}
 	if c.LateReg != "" && c.Entry != "VStruct" && c.Entry != "" {
 		register(c.LateReg)
